@@ -141,9 +141,11 @@ CLAIMED = {
         "otherwise the run is refused with the store left by delivery; every delivery path (direct, keyword, fetch, forwarding "
         "of any chain length) preserves 'no strictly hinted channel holds a hint-violating value'. Histories of public operations "
         "on real channels and nodes are compared step by step with the model; the oracle re-derives the property's demands.",
-   design="7/C03", technique="Coq proofs (induction on receiver-chain fuel, store invariant over all delivery paths) + differential correspondence + oracle",
+   design="7/C03", technique="Coq proofs (induction on receiver-chain fuel, store invariant over all delivery paths) + model functions proved equal to the methods REGENERATED from channels.py on every run (translator tie) + differential correspondence + oracle",
    note="Hints are reduced to int-or-none here (the hint calculus is C04). A TypeError raised by the setter during fetch is "
-        "accepted as a refusal alongside ReadinessError. The cache is switched off on the nodes of this layer (C05 covers it)."),
+        "accepted as a refusal alongside ReadinessError. Second tie (coq/gen/C03gen.v): ready, _type_check_new_value, both value "
+        "setters and InputData.fetch are regenerated from the source by tools/py2gallina_chan.py and proved equal to the model's "
+        "functions; when the source leaves the translator's language this tie is reported as not applicable and the correspondence remains. The cache is switched off on the nodes of this layer (C05 covers it)."),
  "C05": dict(
    text="Coq theorem over Cache.v (the run cycle of one node as the current code performs it: cache test, readiness gate, local "
         "or executor run, success/failure epilogue, cache write): for EVERY deterministic node function and EVERY history of "
@@ -164,8 +166,10 @@ CLAIMED = {
         "per-node input caches) ends in the same state as the plain FIFO interpretation of the signal connections. Both models are "
         "run against real AccumulatingInputSignal objects and real non-automated Workflows; an independent python queue interpreter "
         "is the oracle.",
-   design="7/C02", technique="Coq induction over op histories + simulation proof (cached loop refines queue spec) + differential correspondence + oracle",
-   note="All children local, no failing functions (C06), no executors in flows. Trusts the harness's python reference interpreter "
+   design="7/C02", technique="Coq induction over op histories + simulation proof (cached loop refines queue spec) + trigger model proved equal to the methods REGENERATED from channels.py on every run (translator tie) + differential correspondence + oracle",
+   note="All children local, no failing functions (C06), no executors in flows. Second tie (coq/gen/C02gen.v): "
+        "AccumulatingInputSignal.__call__/reset and InputSignal.__call__ are regenerated from the source by tools/py2gallina_chan.py "
+        "and proved equal to Trig.v's acc_call (callback invoked exactly once iff the model fires). Trusts the harness's python reference interpreter "
         "as oracle and the generators' coverage (distribution in evidence)."),
  "C15": dict(
    text="Coq theorems over WfIO.v (model of Workflow._build_io, the map setters, panel assignment and run): characterisation of the "
